@@ -1371,7 +1371,34 @@ impl<V: Full> Backend for B<V> {
             let v = T::from_str(s)?;
             let j = serde_json::to_string(&v).map_err(|e| PasetoError::PayloadError(e.into()))?;
             let back: T = serde_json::from_str(&j).map_err(|e| PasetoError::PayloadError(e.into()))?;
-            Ok((j, back.to_string()))
+            // every other serde entry point sees the same value: owned and borrowed strings, readers,
+            // values, escaped JSON spellings (the visitor's visit_str / visit_string / visit_borrowed_str)
+            let want = back.to_string();
+            let pe = |what: &str, e: String| PasetoError::PayloadError(format!("serde entry point {what}: {e}").into());
+            let same = |what: &str, got: Result<T, String>| -> Result<(), PasetoError> {
+                match got {
+                    Ok(x) if x.to_string() == want => Ok(()),
+                    Ok(x) => Err(pe(what, format!("gives {} instead of {}", x, want))),
+                    Err(e) => Err(pe(what, e)),
+                }
+            };
+            use serde::de::IntoDeserializer;
+            use serde::de::value::{BorrowedStrDeserializer, Error as VE, StrDeserializer, StringDeserializer};
+            same("from_slice", serde_json::from_slice::<T>(j.as_bytes()).map_err(|e| e.to_string()))?;
+            same("from_reader", serde_json::from_reader::<_, T>(j.as_bytes()).map_err(|e| e.to_string()))?;
+            same("from_value", serde_json::from_value::<T>(serde_json::Value::String(s.to_string())).map_err(|e| e.to_string()))?;
+            same("escaped json", serde_json::from_str::<T>(&j.replacen('.', "\\u002e", 1)).map_err(|e| e.to_string()))?;
+            same("json with whitespace", serde_json::from_str::<T>(&format!(" \n{j}\t ")).map_err(|e| e.to_string()))?;
+            let d: StrDeserializer<VE> = s.into_deserializer();
+            same("visit_str", T::deserialize(d).map_err(|e| e.to_string()))?;
+            let d: StringDeserializer<VE> = s.to_string().into_deserializer();
+            same("visit_string", T::deserialize(d).map_err(|e| e.to_string()))?;
+            same("visit_borrowed_str", T::deserialize(BorrowedStrDeserializer::<VE>::new(s)).map_err(|e| e.to_string()))?;
+            match serde_json::to_value(&v) {
+                Ok(serde_json::Value::String(t)) if t == s => {}
+                other => return Err(pe("to_value", format!("{other:?}"))),
+            }
+            Ok((j, want))
         }
         guard(|| match a {
             Artifact::TokLocal => rt::<SealedToken<V, Local, Raw, Vec<u8>>>(s),
